@@ -5,8 +5,10 @@
 #   tools/private_copy.sh sync                 refresh /tmp/xverif (keeps its build output)
 #   tools/private_copy.sh seed <seed> <PROP..> apply seeded/<seed>/patch.diff to /tmp/xrepo, run the quick checks, undo
 set -u
-X=/tmp/xverif
-R=/tmp/xrepo
+# PC=y selects a second, independent copy (/tmp/yverif + /tmp/yrepo), e.g. while matrix.sh uses the first
+PC=${PC:-x}
+X=/tmp/${PC}verif
+R=/tmp/${PC}repo
 case "${1:-}" in
 sync)
   [ -d $R ] || git -C /repo worktree add --detach $R HEAD >/dev/null
@@ -24,6 +26,25 @@ seed)
   for p in "$@"; do
     ./check $p quick > $X/out-$s-$p.txt 2>&1; rc=$?
     echo "$s $p rc=$rc $(grep -c '^VIOLATION' $X/out-$s-$p.txt) violation line(s): $(grep -m3 'key=' $X/out-$s-$p.txt | tr -s ' ' | tr '\n' ';' | cut -c1-200)"
+  done
+  git -C $R checkout -q -- .
+  ;;
+mutant)
+  # mutant <file relative to the repo> <old> <new> <PROP...>: literal replacement, baseline suite, quick checks, undo
+  f=$2; old=$3; new=$4; shift 4
+  git -C $R checkout -q -- .
+  python3 - "$R/$f" "$old" "$new" <<'PY' || exit 3
+import sys
+p,old,new=sys.argv[1:4]
+s=open(p).read()
+if s.count(old)!=1: sys.exit(f"pattern occurs {s.count(old)} times in {p}")
+open(p,'w').write(s.replace(old,new))
+PY
+  (cd $R && cargo test --workspace --offline 2>&1 | grep -E "^test result|^error" | awk '/^error/ {print} /test result/ {p+=$4; f+=$6} END {print "baseline tests: passed",p,"failed",f}')
+  cd $X
+  for p in "$@"; do
+    ./check $p quick > $X/out-mutant-$p.txt 2>&1; rc=$?
+    echo "mutant $p rc=$rc $(grep -c '^VIOLATION' $X/out-mutant-$p.txt) violation line(s): $(grep -m3 'key=' $X/out-mutant-$p.txt | tr -s ' ' | tr '\n' ';' | cut -c1-300)"
   done
   git -C $R checkout -q -- .
   ;;
